@@ -21,6 +21,8 @@ def size_specs(n, tier, small):
     """List of (name, spec).  spec: None | ('const', s) | ('var',) | ('list', [None|int]*n)."""
     out = [("absent", None)]
     for sz in range(1, n + 1):
+        if n >= 5 and sz not in (1, 2, n // 2, n):
+            continue
         out.append(("const%d" % sz, ("const", sz)))
     out.append(("var", ("var",)))
     menu = [None, 1, 2, 3]
@@ -289,6 +291,8 @@ def cases_for(tier):
             if spec is not None and n >= 5 and sum(1 for x in spec[1] if x is not None) > 1:
                 continue
             if tier == "quick" and n == 6 and spec is not None and any(x is not None for x in spec[1]):
+                continue
+            if n == 8 and spec is not None and any(x is not None for x in spec[1]) and (h, w) != (2, 4):
                 continue
             for prim, cfg in ((False, False), (True, False)):
                 out.append({"variant": "borders", "form": "inner-frame", "shape": [h, w], "n": n, "edges": edges, "spec": spec, "prim": prim, "cfg": cfg})
